@@ -378,7 +378,7 @@ def build_bulk(spec, use="auto"):
 def build_slab(spec, miller, layers, pbc):
     conv, prim, system = build_cells(spec)
     hkl = tuple(int(ch) for ch in miller)
-    s = ase_surface(conv, hkl, layers, vacuum=None, periodic=False)
+    s = ase_surface(conv, hkl, layers, vacuum=None, periodic=True)
     r = reps_for(s.get_cell(), which=(0, 1))
     s = s.repeat((r[0], r[1], 1))
     z = s.get_positions()[:, 2]
@@ -468,10 +468,17 @@ C02_QUICK = [
     ("wurtzite", "ZnO", "bulk", "-", "TTT", 0.02), ("wurtzite", "GaN", "001", 3, "TTF", 0.0), ("wurtzite", "AlN", "100", 3, "TTT", 0.05),
     ("perovskite", "SrTiO3", "bulk", "-", "TTT", 0.0), ("perovskite", "BaTiO3", "100", 3, "TTF", 0.02), ("perovskite", "KMgF3", "bulk", "-", "TTT", 0.05),
     ("rutile", "TiO2", "bulk", "-", "TTT", 0.0), ("rutile", "SnO2", "110", 3, "TTF", 0.02), ("rutile", "MgF2", "001", 3, "TTT", 0.05),
+    # further candidates (the list is longer than the quick budget because the precondition rejects some lines)
+    ("fcc", "Ag", "110", 4, "TTF", 0.0), ("bcc", "Nb", "110", 3, "TTT", 0.0), ("cesiumchloride", "CsI", "bulk", "-", "TTT", 0.02),
+    ("rocksalt", "KCl", "bulk", "-", "TTT", 0.02), ("zincblende", "InP", "100", 3, "TTT", 0.02), ("hcp", "Ru", "110", 3, "TTF", 0.02),
+    ("fluorite", "SrF2", "110", 3, "TTT", 0.0), ("perovskite", "KTaO3", "110", 3, "TTT", 0.0), ("fcc", "Ni", "111", 4, "TTF", 0.05),
+    ("bcc", "Li", "bulk", "-", "TTT", 0.05), ("diamond", "Si", "110", 4, "TTT", 0.0), ("wurtzite", "BeO", "110", 3, "TTF", 0.02),
 ]
 
 
-def c02_quick_keys():
+def c02_quick_keys(count=None):
+    """candidate keys of the curated quick enumeration, in the fixed order above (the caller drops the lines the
+    precondition rejects and keeps the first `count` admitted ones)"""
     return [c02_key(p, nme, k, l, pbc, noise, i % 3) for i, (p, nme, k, l, pbc, noise) in enumerate(C02_QUICK)]
 
 
@@ -519,7 +526,8 @@ def c03_key(lat, A, B, face, lA, lB, rep, pbc, noise, seed):
 def build_stack(lat, A, B, face, lA, lB, rep, pbc):
     aA = dict(metals(lat))[A]
     aB = dict(metals(lat))[B]
-    slab = BUILDERS[(lat, face)](A, size=(rep, rep, lA + lB), a=aA, vacuum=None, orthogonal=False)
+    kw = {"orthogonal": False} if face in ("111", "110") else {}
+    slab = BUILDERS[(lat, face)](A, size=(rep, rep, lA + lB), a=aA, vacuum=None, **kw)
     tags = slab.get_tags()           # 1 = top layer ... lA+lB = bottom layer
     layer = (lA + lB) - tags         # 0 = bottom
     z = slab.get_positions()[:, 2]
@@ -572,7 +580,7 @@ def c03_precondition(at, slabA, slabB, lA, lB, strain, margin=MARGIN):
     return ok, rep
 
 
-def c03_member(key):
+def c03_member(key, max_atoms=None):
     _, lat, A, B, face, ls, reps, pbc, noise, seed = key.split(":")
     lA, lB = [int(x) for x in ls.split("+")]
     rep = int(reps.split("x")[0])
@@ -607,9 +615,10 @@ def c03_keys_all(seeds=(0,)):
     return keys
 
 
-def c03_quick_keys():
-    """one member per ordered pair (cycling through faces, thicknesses, lateral sizes, pbc, noise), first 40
-    pairs in a fixed interleaved order of fcc and bcc pairs"""
+def c03_quick_keys(count=None):
+    """candidate keys of the quick enumeration: one member per ordered pair (fcc and bcc pairs interleaved), cycling
+    through faces, thicknesses, lateral sizes, pbc and noise; the caller drops the pairs the precondition rejects and
+    keeps the first `count` admitted ones"""
     pairs = c03_pairs()
     f = [p for p in pairs if p[0] == "fcc"]
     b = [p for p in pairs if p[0] == "bcc"]
@@ -619,13 +628,10 @@ def c03_quick_keys():
             inter.append(f[i])
         if i < len(b):
             inter.append(b[i])
-    # spread: take every k-th so that 40 cover the whole list
-    step = max(1, len(inter) // 40)
-    chosen = inter[::step][:40]
     keys = []
     lay = [(3, 3), (3, 4), (4, 3), (5, 3), (3, 5), (4, 4)]
-    for i, (lat, A, B) in enumerate(chosen):
-        face = FACES[lat][i % 2]
+    for i, (lat, A, B) in enumerate(inter):
+        face = FACES[lat][(i // 2) % 2]
         lA, lB = lay[i % len(lay)]
         rep = 4 if (i // 2) % 2 == 0 else 5
         pbc = "TTF" if i % 3 == 0 else "TTT"
